@@ -231,6 +231,20 @@ func checkC08(c *Check) {
 	c.Rule("R5", "E1 guard-cut", "a subtree is created only for a non-optional, non-last segment with at least one element; a match-all subtree only when no ancestor is match-all", 4)
 	checkShapeGuards(c)
 
+	// ---- R8 every user expression is compiled on its own
+	c.Rule("R8", "E3 provenance", "each user expression is handed to regexp.Compile by itself (its error handled under R1) before it is spliced into the segment pattern, so text that only compiles after splicing — e.g. \"x)(y\" — is rejected", 1)
+	if cons := p.Fn("route", "constructMatchStyleRegex"); cons != nil {
+		own := false
+		allInstrs(cons, func(in ssa.Instruction) {
+			if cl, ok := in.(*ssa.Call); ok && (callName(&cl.Call) == "regexp.Compile" || callName(&cl.Call) == "regexp/syntax.Parse") && vFieldNamed("Regex")(cl.Call.Args[0]) {
+				own = true
+			}
+		})
+		c.Cond(own, p.FuncKey(cons)+":compiles-each-expression", p.FuncPos(cons), "regexp.Compile(*p.Value.Regex) for every parameter", "user expressions are no longer compiled individually: an expression that does not compile on its own can be accepted once wrapped (and group counting falls back to guessing)")
+	} else {
+		c.Anchor("route.constructMatchStyleRegex")
+	}
+
 	// ---- R6 root typestate
 	c.Rule("R6", "E3 nil-typestate", "the segment of a tree that may be the root (parent == nil) is used only where getParent() != nil has been established", 1)
 	checkRootTypestate(c, regs)
